@@ -1,7 +1,10 @@
 import os
 
 SOLVER = os.environ.get("C19_SOLVER", "cadical")
-KF = {} if os.environ.get("C19_NOKF") else {"KF_AVAIL_FRESH": None}   # known-finding guards in force: {"KF_<NAME>": None}
+ALLKF = ["KF_AVAIL_FRESH", "KF_STALE_PREV", "KF_SLOW_STUCK", "KF_FALSE_DROP", "KF_GATHER_SKIP", "KF_DSZ", "KF_ROUND_WRAP"]
+# C19_NOKF=all (none in force) or a comma list of guards to switch off (to exhibit that finding on the unchanged tree)
+_off = os.environ.get("C19_NOKF", "")
+KF = {} if _off == "all" else {k: None for k in ALLKF if k not in _off.split(",")}   # known-finding guards in force: {"KF_<NAME>": None}
 
 META = {
     "bounds": "TBD",
@@ -15,18 +18,19 @@ META = {
 def ring_job(pat, size=8, mbs=2, nr=1, round0=None, timeout=None, extra=None, pi=None, px=None, tag=""):
     """pat: one letter per step (w writer, g get+inc, a avail+full read, i rpos_init, r any reader op, x any)"""
     blocks = size // mbs
-    defs = {"SIZE": size, "MBS": mbs, "PAT": '"%s"' % pat, "NR": nr, "TYPED_RBUF": None, "IOVTAB": blocks + 3}
+    defs = {"SIZE": size, "MBS": mbs, "PAT": '"%s"' % pat, "NR": nr, "TYPED_RBUF": None, "IOVTAB": blocks + 2}
     if round0 is not None:
         defs["ROUND0"] = round0
     defs.update(KF)
     if extra:
         defs.update(extra)
-    lb = blocks + 3
+    lb = blocks + 2
     name = "ring%d-m%d-%s%s%s%s" % (size, mbs, pat, "-r%d" % nr if nr != 1 else "", "-late" if round0 else "", tag)
     j = {"name": name, "src": "ring.c", "defs": defs, "unwind": max(size, len(pat)) + 2,
          "unwindset": ["r_buf_rpos_inc.0:%d" % lb, "r_buf_rpos_init.0:%d" % lb, "r_buf_rpos_init.1:%d" % lb,
                        "iovec_aggregate_ex.0:%d" % lb, "r_buf_iovec_calc_size.0:%d" % lb,
-                       "check_regions.1:%d" % (blocks + 3)],
+                       "check_regions.1:%d" % (blocks + 3), "check_regions.0:%d" % (size + 1), "prev_round_unread.0:%d" % (blocks + 3),
+                       "kf_pre_guards.0:%d" % (blocks + 3), "gather_skipped.0:%d" % (blocks + 3), "regions_total.0:%d" % (blocks + 3)],
          "solver": SOLVER,
          "shape": "ring=%d min_block=%d schedule=%s readers=%d round0=%s" % (size, mbs, pat, nr, round0 or 0),
          "desc": "regions inside ring; reader stream in order / drops reported; avail == full read; data_size_ret",
@@ -38,6 +42,10 @@ def ring_job(pat, size=8, mbs=2, nr=1, round0=None, timeout=None, extra=None, pi
 
 def jobs(tier):
     out = []
-    for pat in os.environ.get("C19_PATS", "x xx vvg vva vvvg vvva vgvg").split():
-        out.append(ring_job(pat))
+    for spec in os.environ.get("C19_PATS", "x xx vvg vva vvvg vvva vgvg").split():
+        pat, _, shape = spec.partition(":")
+        late = pat.endswith("!")
+        pat = pat.rstrip("!")
+        size, mbs = (int(x) for x in shape.split("/")) if shape else (8, 2)
+        out.append(ring_job(pat, size, mbs, round0="(SIZE_MAX-1)" if late else None, pi=os.environ.get("C19_PI")))
     return out
